@@ -93,6 +93,23 @@ Theorem fo_padding : forall src nic st rst ci,
 Proof. exact fo_padding_lemma. Qed.
 Print Assumptions fo_padding.
 
+(* positive truncators (relative mode: positive table entries at the lengths that occur) and non-empty
+   classes: the ONLY empty categories of a produced ballot are trailing ones — no empty category in
+   the middle while alternatives remain.  TrailingOnly b := b = r ++ repeat [] n with r's categories
+   non-empty; trailing_ok is its boolean form (used by the harness in the relative mode) *)
+Theorem fo_empty_categories_trailing : forall src nic st rst ci,
+  from_ordinal src nic st rst = Ok ci ->
+  truthy nic || truthy st || truthy rst = true ->
+  positive_params nic st rst (os_multiplicity src) ->
+  Forall (fun om => Forall (fun c => c <> []) (fst om)) (os_multiplicity src) ->
+  Forall TrailingOnly (ci_preferences ci).
+Proof. exact fo_trailing_lemma. Qed.
+Print Assumptions fo_empty_categories_trailing.
+
+Theorem trailing_ok_correct : forall b, trailing_ok b = true <-> TrailingOnly b.
+Proof. exact trailing_ok_iff. Qed.
+Print Assumptions trailing_ok_correct.
+
 (* ---- conservation of voters, also when different orders collapse to one ballot ---- *)
 Theorem fo_conserve : forall src nic st rst ci,
   from_ordinal src nic st rst = Ok ci ->
